@@ -355,6 +355,27 @@ def run_r4(ctx, rule):
             break
     if not found:
         rule.bad("truncate/missing", "anchor missing: Vec::truncate in request_more", kind="anchor-missing")
+    # who may change the buffer's length or contents: request_more (where the laws above are decided) and the
+    # constructors.  Anywhere else a mutable borrow of `buf` may only feed a call that leaves length and contents alone.
+    harmless = ("Vec::len", "Vec::capacity", "Vec::is_empty", "Vec::as_ptr", "Vec::reserve", "Vec::reserve_exact", "Vec::shrink_to_fit", "Vec::shrink_to")
+    n_in = 0
+    for f, bi, si, name in util.mut_field_borrows(facts, DRT):
+        if name != "buf":
+            continue
+        nid = norm(f.id)
+        if nid == DR + "request_more":
+            n_in += 1
+            continue
+        tmp = f.blocks[bi]["stmts"][si]["lhs"]["l"]
+        users = [t for _, t in f.calls() if any((a.get("mv") or a.get("cp") or {}).get("l") == tmp and not (a.get("mv") or a.get("cp"))["p"] for a in t["args"])]
+        callee = norm(util.cname(users[0])) if len(users) == 1 else "store-or-escaping-reference"
+        if len(users) == 1 and callee.endswith(harmless):
+            continue
+        rule.bad("%s/mutates-buffer/%s" % (nid, short(callee)), "%s changes the buffer through %s outside request_more: nothing there keeps the window [pos_in_buf, pos_in_buf + valid_len) inside it" % (short(nid), short(callee)), f.loc(bi))
+    for f, bi, si, name in util.field_stores(facts, DRT):
+        if name == "buf" and not any(norm(f.id) == DR + m for m in ("request_more",)):
+            rule.bad("%s/replaces-buffer" % norm(f.id), "%s replaces the buffer" % short(norm(f.id)), f.loc(bi))
+    rule.check(n_in >= 3, "buffer/mutated-in-request_more", "the buffer is grown, moved and shrunk in request_more only (%d mutable borrows there)" % n_in, fn.loc())
 
 
 def run_r5(ctx, rule):
@@ -458,7 +479,7 @@ def run(ctx):
     run_r2(ctx, r2)
     r3 = ctx.rule("C02-R3", "read results are appended at the end of the window, into a slice of exactly chunk_size bytes, behind n <= chunk_size", floor=3)
     run_r3(ctx, r3)
-    r4 = ctx.rule("C02-R4", "shrinking keeps the window", floor=2)
+    r4 = ctx.rule("C02-R4", "shrinking keeps the window; the buffer is changed in request_more only", floor=3)
     run_r4(ctx, r4)
     r5 = ctx.rule("C02-R5", "complete / io_error are set exactly on Ok(0) and non-Interrupted Err", floor=6)
     run_r5(ctx, r5)
